@@ -517,7 +517,10 @@ def _r1(ctx):
 
 
 def _norm(text):
-    return src(ast.parse(text, mode="eval").body)
+    try:
+        return src(ast.parse(text, mode="eval").body)
+    except SyntaxError:
+        return text
 
 
 def _window_bound(fn):
@@ -559,7 +562,10 @@ def _r2(ctx):
             env[bound] = {"T": 1}
 
         def value(e):
-            t = _SliceFields().visit(ast.parse(inline_locals(fn, e), mode="eval").body)
+            try:
+                t = _SliceFields().visit(ast.parse(inline_locals(fn, e), mode="eval").body)
+            except SyntaxError:         # a local with several definitions reaches the expression: rendered name{def1 | def2}, not evaluable
+                return None, e
             return lin(ast.parse(src(t), mode="eval").body, env), t
         # the window read: slice(<position>, <stop>, <step>)
         sl = None
